@@ -16,11 +16,13 @@ def conv_state(st, k):
         return {int(i): v for i, v in f.items()}
 
     par, ch, tgt, cls, foo = (fn(st[x]) for x in ("par", "ch", "tgt", "cls", "foo"))
-    return {"par": {L(i): L(v) for i, v in par.items()}, "ch": {L(i): [L(x) for x in v] for i, v in ch.items()},
+    own = fn(st["own"])
+    return {"own": {L(i): [list(kv) for kv in v] for i, v in own.items()},"par": {L(i): L(v) for i, v in par.items()}, "ch": {L(i): [L(x) for x in v] for i, v in ch.items()},
             "tgt": {L(i): L(v) for i, v in tgt.items()}, "cls": {L(i): v for i, v in cls.items()}, "foo": {L(i): v for i, v in foo.items()}}
 
 
-CLASSES = {"node": "HNode", "anynode": "HAny", "mixin": "HMixin", "light": "HLight", "symlink": "HSym"}
+CLASSES = {"node": "HNode", "anynode": "HAny", "mixin": "HMixin", "light": "HLight", "symlink": "HSym", "symlinkown": "HSymOwn",
+           "falsy": "Adv_falsy_mixin"}
 
 
 def build(pre):
@@ -32,7 +34,7 @@ def build(pre):
     labels = list(pre["par"])
     for lbl in labels:
         c = pre["cls"][lbl]
-        if c == "symlink":
+        if c in ("symlink", "symlinkown"):
             continue
         cls = getattr(N, CLASSES[c])
         if c == "node":
@@ -47,7 +49,10 @@ def build(pre):
     while len(done) < len(labels):
         for lbl in labels:
             if lbl not in done and pre["tgt"][lbl] in done:
-                N.register(N.HSym(N.Ctx.objs[pre["tgt"][lbl]]), lbl)
+                if pre["cls"][lbl] == "symlinkown":
+                    N.register(N.HSymOwn(N.Ctx.objs[pre["tgt"][lbl]], tag=dict(map(tuple, pre["own"][lbl]))["tag"]), lbl)
+                else:
+                    N.register(N.HSym(N.Ctx.objs[pre["tgt"][lbl]]), lbl)
                 done.add(lbl)
     for pp, kids in pre["ch"].items():
         for c in kids:
@@ -63,7 +68,7 @@ def project():
     from . import nodes as N
 
     par, ch = N.snapshot()
-    tgt, cls, foo = {}, {}, {}
+    tgt, cls, foo, own = {}, {}, {}, {}
     inv = {v: k for k, v in CLASSES.items()}
     for lbl, o in N.Ctx.objs.items():
         tgt[lbl] = N.label(target_of(o))
@@ -72,7 +77,12 @@ def project():
             foo[lbl] = o.foo if isinstance(o.foo, str) else "Other:" + repr(o.foo)
         except AttributeError:
             foo[lbl] = "AttributeError"
-    return {"par": par, "ch": ch, "tgt": tgt, "cls": cls, "foo": foo}
+        d = getattr(o, "__dict__", None)
+        if d is None:       # __slots__ class
+            own[lbl] = [[k, getattr(o, k)] for k in ("foo",) if hasattr(o, k)]
+        else:
+            own[lbl] = sorted([k, v] for k, v in d.items() if k not in ("_NodeMixin__children", "_NodeMixin__parent", "target", "name") and isinstance(v, str))
+    return {"par": par, "ch": ch, "tgt": tgt, "cls": cls, "foo": foo, "own": own}
 
 
 def register_copy(orig_n, copy_n, k):
